@@ -156,7 +156,14 @@ def instance_tracer_fill(t, idx, log):
     t.on_error = lambda trace_context, request, error: log.append((idx, 'error', trace_context, request, error))
 
 
-TRACER_KINDS = {'full': LogTracer, 'partial': PartialTracer, 'chain': ChainTracer, 'instance': instance_tracer, 'late': late_tracer}
+def logging_tracer(idx, log):
+    """the library's own LoggingTracer (it writes to the logging module, not to the event log of the harness)"""
+    from pjrpc.client.tracer import LoggingTracer
+    return LoggingTracer()
+
+
+TRACER_KINDS = {'full': LogTracer, 'partial': PartialTracer, 'chain': ChainTracer, 'instance': instance_tracer, 'late': late_tracer,
+                'logging': logging_tracer}
 
 
 def request_ids(kind):
@@ -179,6 +186,8 @@ def outcome_menu(cfg):
             # a lenient client whose transport hands back what the server answered to a notification: an error object with a listed code
             menu += ['notif_reply_listed']
     menu += ['exc_listed', 'exc_sub', 'exc_listed2', 'exc_unlisted']
+    if cfg.get('same_exc'):
+        menu += ['exc_same']           # the transport re-raises ONE stored exception object (a circuit breaker, a mock side effect)
     if cfg.get('c19'):
         if not notif:
             menu += ['notjson', 'notresp', 'identity']
@@ -188,7 +197,7 @@ def outcome_menu(cfg):
     return [m for m in menu if m not in cfg.get('drop', ())]
 
 
-def body_for(cfg, name, k):
+def body_for(cfg, name, k, same=None):
     """(body text | exception instance) for outcome `name` at attempt k"""
     rk = cfg['request']
     ids = request_ids(rk)
@@ -213,6 +222,8 @@ def body_for(cfg, name, k):
     if name in ('level_listed', 'level_listed2', 'level_unlisted'):
         code = {'level_listed': C1, 'level_listed2': C2, 'level_unlisted': CU}[name]
         return json.dumps(resp(None, error=err(code)))
+    if name == 'exc_same':
+        return same
     if name == 'exc_listed':
         return E1('attempt %d' % k)
     if name == 'exc_sub':
@@ -242,7 +253,7 @@ def execute(cfg, env, horizon=12):
     -> observation dict
     """
     menu = outcome_menu(cfg)
-    state = dict(script=[], tag=0)          # script: (name, raised exception | body) of the request being made
+    state = dict(script=[], tag=0, same=E1('one stored exception object'))          # script: (name, raised exception | body) of the request being made
     sleeplog.take()
     rs_ = cfg.get('request_strategy', 'unset')
     eff = cfg.get('client_strategy') if (isinstance(rs_, str) and rs_ == 'unset') else rs_
@@ -258,7 +269,7 @@ def execute(cfg, env, horizon=12):
             script.append(('HORIZON', None))
             raise EU('horizon')
         name = menu[env.choose(('attempt', state['tag'], k), len(menu))]
-        b = body_for(cfg, name, k)
+        b = body_for(cfg, name, k, same=state['same'])
         script.append((name, b))
         if isinstance(b, BaseException):
             raise b
@@ -293,6 +304,9 @@ def execute(cfg, env, horizon=12):
         box = dict(request=None)
 
         def thunk():
+            if cfg.get('unserialisable'):
+                # parameters the JSON encoder cannot serialise: the attempt fails before anything reaches the transport
+                return client.call('m', {1, 2}, _trace_ctx=ctx) if rk == 'single' else client.batch.add('a', {1, 2}).call(_trace_ctx=ctx)
             if rk == 'single':
                 if via == 'dunder':
                     return client('m', 1, _trace_ctx=ctx)
